@@ -2404,3 +2404,130 @@ func init() {
 			}
 		}})
 }
+
+func init() {
+	register(&Rule{ID: "GC.stamp", Min: 4, Text: "what is born dead carries the ticket of what killed it: in the CRDT model, where an operation makes a tombstone of something it has just created or inserted itself — the position slot a losing array move still creates, tree content arriving under a parent that a concurrent edit removed — the removal stamp (a store into removedAt, or remove/SetRemovedAt) is not the operation's own ticket. Stamped with its own ticket the node is collectible as soon as everybody has seen the operation, while its author — who has not yet seen what killed it — still sees it alive and anchors the next edit on it; that edit then fails on every replica that collected the node. A stamp with the operation's ticket on something that existed before is the ordinary removal",
+		Run: func(x *Ctx) {
+			n := 0
+			isStampCall := func(c ssa.CallInstruction) bool {
+				o := prog.CallObj(c)
+				return o != nil && (o.Name() == "remove" || o.Name() == "SetRemovedAt" || o.Name() == "Remove") && len(c.Common().Args) >= 2
+			}
+			for _, fn := range x.P.FuncsIn(crdtPkg) {
+				if len(fn.Blocks) == 0 || (fn.Origin() != nil && fn.Origin() != fn) {
+					continue
+				}
+				// the tickets of the operation being executed: ticket parameters of the function, or — in a closure — of its parent
+				host := fn
+				for host.Parent() != nil {
+					host = host.Parent()
+				}
+				tps := ticketParams(host)
+				if len(tps) == 0 {
+					continue
+				}
+				isOwnTicket := func(v ssa.Value) *ssa.Parameter {
+					for _, tp := range tps {
+						if prog.Reaches(v, func(w ssa.Value) bool { return w == ssa.Value(tp) }) {
+							return tp
+						}
+					}
+					return nil
+				}
+				type stamp struct {
+					at   ssa.Instruction
+					node ssa.Value
+					tk   *ssa.Parameter
+				}
+				var stamps []stamp
+				for _, b := range fn.Blocks {
+					for _, ins := range b.Instrs {
+						switch t := ins.(type) {
+						case *ssa.Store:
+							fa, ok := t.Addr.(*ssa.FieldAddr)
+							if !ok || prog.FieldVar(fa) == nil || prog.FieldVar(fa).Name() != "removedAt" {
+								continue
+							}
+							if tp := isOwnTicket(t.Val); tp != nil {
+								stamps = append(stamps, stamp{t, fa.X, tp})
+							}
+						case *ssa.Call:
+							if isStampCall(t) {
+								if tp := isOwnTicket(t.Call.Args[1]); tp != nil {
+									stamps = append(stamps, stamp{t, t.Call.Args[0], tp})
+								}
+							}
+						}
+					}
+				}
+				for i, s := range stamps {
+					n++
+					why := ""
+					// (a) the node is the result of a call of this function that was given the same ticket: created by this operation
+					prog.Reaches(s.node, func(w ssa.Value) bool {
+						if ex, ok := w.(*ssa.Extract); ok {
+							w = ex.Tuple
+						}
+						c, ok := w.(*ssa.Call)
+						if !ok {
+							return false
+						}
+						for _, a := range c.Call.Args {
+							if prog.Reaches(a, func(u ssa.Value) bool { return u == ssa.Value(s.tk) }) {
+								why = "the node returned by " + c.Call.Value.Name() + ", which was created with this very ticket"
+								return true
+							}
+						}
+						return false
+					})
+					// (b) inside a callback: the node comes from the callback's parameter, and the traversal it is handed to
+					// walks something this operation inserts (an argument of an Insert… call of the parent)
+					if why == "" && fn.Parent() != nil {
+						fromParam := prog.DependsOn(s.node, func(w ssa.Value) bool {
+							pm, ok := w.(*ssa.Parameter)
+							return ok && pm.Parent() == fn
+						})
+						if fromParam {
+							p := fn.Parent()
+							for _, c := range prog.CallsIn(p) {
+								passed := false
+								for _, cl := range closureArgs(c) {
+									if cl == fn {
+										passed = true
+									}
+								}
+								if !passed {
+									continue
+								}
+								for _, a := range c.Common().Args {
+									for _, ic := range prog.CallsIn(p) {
+										o := prog.CallObj(ic)
+										if o == nil || !strings.HasPrefix(o.Name(), "Insert") {
+											continue
+										}
+										for j, ia := range ic.Common().Args {
+											if j == 0 {
+												continue // the receiver is where it is inserted
+											}
+											if _, isPtr := ia.Type().(*types.Pointer); !isPtr {
+												continue
+											}
+											if prog.DependsOn(a, func(w ssa.Value) bool { return w == ia || sameAccessPath(w, ia) }) {
+												why = "what this operation inserts with " + o.Name() + " at " + x.pos(ic)
+											}
+										}
+									}
+								}
+							}
+						}
+					}
+					x.check(why == "", fmt.Sprintf("func=%s stamp#%d not-own-ticket-on-own-creation", prog.FnName(fn), i+1), x.pos(s.at),
+						"the operation's ticket stamps something that existed before the operation",
+						"the operation stamps "+why+" as removed with its own ticket ("+s.tk.Name()+"): the node is born dead because of something else (the move that beat this one, the removal of the parent) and must carry that ticket — with its own it is collected as soon as everybody has seen the operation, while its author still anchors on it")
+				}
+			}
+			if n < 4 {
+				x.C.Vacuous(x.id()+" removal stamps with the operation's ticket", n, 4)
+			}
+		}})
+}
